@@ -33,6 +33,8 @@ def dates(r, n):
 
 
 FULL_WIDTH_DIGITS = str.maketrans('0123456789', '０１２３４５６７８９')
+MOD_PREFIX = {'en-us': ['please pay before', 'since', 'after'], 'es-es': ['antes del', 'desde el'], 'es-mx': ['antes del', 'desde el'], 'fr-fr': ['avant le', 'depuis le'],
+              'pt-br': ['antes de', 'desde'], 'it-it': ['prima del', 'dal'], 'de-de': ['vor dem', 'seit dem'], 'nl-nl': ['voor', 'sinds'], 'zh-cn': ['直到']}
 TIME_TAILS = [' and after 6PM', ' and later 7 pm']
 
 
@@ -94,6 +96,19 @@ def check(m, culture, layout, d, q, st, en, ref, ctx, second=None):
         if dtlib.view(r4) != obs:
             ctx.fail('date-depends-on-letter-case-of-culture-code', where, key, case, obs, dtlib.view(r4))
             return
+        # asked again after the same date text was asked WITH a modifier in front (what that call did to shared objects must not stick)
+        pre = MOD_PREFIX.get(culture)
+        if pre:
+            expr = q[st:en + 1]
+            for p_ in pre:
+                m.parse(p_ + expr if culture == 'zh-cn' else p_ + ' ' + expr, ref)
+            if culture == 'zh-cn':
+                m.parse(expr + '之前', ref)
+            again = dtlib.view(m.parse(q, ref))
+            ctx.event('repeat_after_modifier_runs')
+            if again != obs:
+                ctx.fail('date-changes-after-a-modifier-call', where, key, case, obs, again)
+                return
         # a plain date reads the same whatever DateTimeOptions the recogniser was built with
         for opt in (1, 2, 4):
             ro = dtlib.dt_model_opt(culture, opt).parse(q, ref)
